@@ -855,8 +855,19 @@ pub fn run_estimate(focus: &'static str, seed: u64, index: u64) -> CaseOut {
             if dropped > 0 { counts.inc("cases_skipped_because_accesses_were_dropped"); }
             else {
                 let resident: BTreeSet<u64> = sut.snapshot().stored.iter().map(|e| e.0).collect();
+                // every resident had at least one recorded hit before the storm began and nothing ages, so its estimate was >= 1 throughout;
+                // the storm keys were never read: unless one of them picked up an estimate through a hash collision, none may evict a resident
+                let storm_estimate = (1000..1050u64).map(|k| sut.cache.verif_estimate(&k) as u64).max().unwrap_or(0);
+                if storm && storm_estimate == 0 { counts.inc("storms_of_never_read_keys_against_residents_with_recorded_hits"); }
                 for (key, hits) in &hits_of {
-                    if !resident.contains(key) { counts.inc("resident_keys_evicted"); continue; }
+                    if !resident.contains(key) {
+                        counts.inc("resident_keys_evicted");
+                        if storm_estimate == 0 {
+                            fail(&mut findings, &["C06", "C14"], "C06/resident-with-recorded-hits-evicted-by-a-never-read-key".into(),
+                                 format!("key {} ({} recorded hits, estimate >= 1 throughout, no ageing) was evicted although every incoming key has estimate 0", key, hits), case.clone());
+                        }
+                        continue;
+                    }
                     let estimate = sut.cache.verif_estimate(key) as u64;
                     let delivered = hits.saturating_sub(buf as u64);
                     counts.inc("end_to_end_estimates_checked");
@@ -915,7 +926,54 @@ pub fn run_release(focus: &'static str, seed: u64, index: u64) -> CaseOut {
     for key in 1..=keys { let value = client.token(key); let _ = run(&mut client, WriteOp::PutW { key, value, weight: per_key }); }
     let rounds = rng.range(6, 20);
     let mut stuck = false;
+    // every third case first: two deletes of one held key back to back while the worker is held before it executes either. While it is
+    // held no delete has been applied, so an acknowledgement that is already Accepted claims "gone" for a key that is still stored and
+    // charged; afterwards exactly one of the two is accepted, the other is refused, and the total dropped by the key's weight.
+    if index % 3 == 0 {
+        let key = rng.range(1, keys);
+        let _ = sut.quiesce();
+        let snapshot = sut.snapshot();
+        if let Some(id) = snapshot.stored.iter().find(|e| e.0 == key).map(|e| e.1) {
+            let before = sut.cache.total_weight_used();
+            let charged = sut.cache.verif_charged_weight(id).unwrap_or(0);
+            sched().arm(Site::WorkerDequeued, 0);
+            let mut dummy = Client::new(8);
+            dummy.write(&sut.cache, WriteOp::Delete { key: 77 });
+            if sched().wait_holding(Site::WorkerDequeued, Duration::from_secs(5)) {
+                let first = issue(&sut.cache, &WriteOp::Delete { key });
+                let second = issue(&sut.cache, &WriteOp::Delete { key });
+                let mut early = None;
+                if let Issued::Ack(ack, _) = &second {
+                    let waker = rt::CountingWaker::new();
+                    if let Poll::Ready(status) = rt::poll_once(ack.handle(), &waker) { early = Some(status); }
+                }
+                if let Some(CommandStatus::Accepted) = early {
+                    if sut.cache.verif_charged_weight(id).is_some() {
+                        fail(&mut findings, &["C04"], "C04/delete-acknowledged-as-accepted-while-the-key-is-still-held".into(),
+                             format!("the second of two back-to-back deletes of key {} was acknowledged Accepted while the worker had executed neither: id {} is still stored and charged {}", key, id, charged), case.clone());
+                    }
+                }
+                sched().release(Site::WorkerDequeued);
+                dummy.settle_all(&marks);
+                let mut statuses = Vec::new();
+                for issued in [first, second] {
+                    if let Issued::Ack(ack, uid) = issued { match rt::await_ack(ack.handle(), uid, &marks) { Waited::Ready(s) => statuses.push(s), _ => { stuck = true; } } }
+                }
+                if !stuck && findings.is_empty() {
+                    counts.inc("back_to_back_deletes_behind_a_held_worker");
+                    let accepted = statuses.iter().filter(|s| **s == CommandStatus::Accepted).count();
+                    let refused = statuses.iter().filter(|s| **s == CommandStatus::Rejected(RejectionReason::KeyDoesNotExist)).count();
+                    let after = sut.cache.total_weight_used();
+                    if accepted != 1 || refused != 1 || after != before - charged {
+                        fail(&mut findings, &["C04", "C11"], "C04/two-deletes-of-one-key-not-one-accepted-one-refused".into(),
+                             format!("two back-to-back deletes of held key {} (charged {}) resolved to {:?}; total {} -> {}", key, charged, statuses.iter().map(status_name).collect::<Vec<_>>(), before, after), case.clone());
+                    }
+                }
+            } else { sched().release(Site::WorkerDequeued); dummy.settle_all(&marks); counts.inc("window_not_entered"); }
+        }
+    }
     'rounds: for round in 0..rounds + keys {
+        if stuck || !findings.is_empty() { break; }
         let final_phase = round >= rounds;
         let key = if final_phase { round - rounds + 1 } else { rng.range(1, keys) };
         if !final_phase {
@@ -1001,6 +1059,167 @@ pub fn run_release(focus: &'static str, seed: u64, index: u64) -> CaseOut {
     counts.inc("cases");
     let nontrivial = counts.get("deletes_of_held_keys_judged") > 0;
     CaseOut { findings, counts, signature: fnv_step(sig, keys), nontrivial, sample }
+}
+
+// ------------------------------------------------------------------------------------------------ fan-out: many threads, all keys distinct
+
+/// Many threads put disjoint sets of keys at the same moment (half of them with a time-to-live), so that every step of a put that is shared
+/// between callers (id generation, the command queue, admission, the TTL index) is entered concurrently for DIFFERENT keys. Then, at
+/// quiescence: every accepted key is held under an id of its own, charged with its weight, the total is the sum; after the clock has passed
+/// the time-to-live and the sweeps have gone round, the expiring keys are gone and released; every key that reads as absent can be put again
+/// (never `KeyAlreadyExists`); and after deleting everything the total is zero.
+pub fn run_fanout(focus: &'static str, seed: u64, index: u64) -> CaseOut {
+    let mut rng = rt::rng_for(seed, index, 0xFA0);
+    let threads = *rng.pick(&[4usize, 8, 16]);
+    let per_thread = rng.range(40, 160);
+    let shards = *rng.pick(&[2usize, 4]);
+    let sutcfg = SutCfg { counters: 10_000, capacity: 4096, max_weight: 1_000_000_000, shards, cmd_buf: *rng.pick(&[8usize, 64, 32_768]), pool: 2, buf: 4, tick: Duration::from_millis(1),
+        weight_mode: WeightMode::Custom, hash_mode: HashMode::Default, start_ns: rt::START_NS };
+    let case = J::obj().with("engine", J::s("conc")).with("scenario", J::s("fanout")).with("focus", J::s(focus)).with("seed", J::Int(seed as i128)).with("index", J::Int(index as i128))
+        .with("threads", J::u(threads)).with("keys_per_thread", J::Int(per_thread as i128)).with("ttl_shards", J::u(shards));
+    let mut counts = Counts::default();
+    let mut findings = Vec::new();
+    rt::clear_abort();
+    let r = recorder();
+    r.keep.store(false, Ordering::SeqCst);
+    let _ = r.take_events();
+    let _ = r.take_weight_violations();
+    sched().release_all();
+    sched().quiet();
+    let sut = Sut::new(sutcfg);
+    let marks = sut.marks;
+    let go = Arc::new(AtomicBool::new(false));
+    let mut crew: rt::Crew<Vec<(u64, i64, bool, Option<CommandStatus>)>> = rt::Crew::new();
+    for t in 0..threads {
+        let cache = sut.cache.clone();
+        let go = go.clone();
+        crew.spawn(move || {
+            let mut client = Client::new(t as u64 + 1);
+            let mut mine = Vec::new();
+            while !go.load(Ordering::SeqCst) { std::hint::spin_loop(); }
+            for i in 0..per_thread {
+                let key = (t as u64 + 1) * 100_000 + i;
+                let weight = 30 + (i % 7) as i64;
+                let with_ttl = i % 2 == 0;
+                let value = client.token(key);
+                let op = if with_ttl { WriteOp::PutWTtl { key, value, weight, ttl: Duration::from_secs(1 + i % 3) } } else { WriteOp::PutW { key, value, weight } };
+                let at = client.write(&cache, op);
+                mine.push((key, weight, with_ttl, at));
+            }
+            client.settle_all(&marks);
+            mine.into_iter().map(|(key, weight, with_ttl, at)| {
+                let status = match &client.log[at].outcome { Outcome::Write { status: Some(Waited::Ready(s)), .. } => Some(*s), _ => None };
+                (key, weight, with_ttl, status)
+            }).collect()
+        });
+    }
+    go.store(true, Ordering::SeqCst);
+    let mut puts: Vec<(u64, i64, bool, Option<CommandStatus>)> = Vec::new();
+    let mut stuck = false;
+    match crew.join("the putting threads of a fan-out to finish") {
+        Ok(results) => for list in results { puts.extend(list); },
+        Err(Waited::Deadlock(d)) => { stuck = true; fail(&mut findings, &["C18", "C11"], "C18/deadlock/fanout".into(), d, case.clone()); }
+        Err(other) => { stuck = true; findings.push(Finding { props: vec!["C05"], signature: "inconclusive/fanout".into(), detail: waited_name(&other), witness: J::Null, inconclusive: true }); }
+    }
+    let mut sig = 0xFA0u64;
+    if !stuck && sut.quiesce().is_ok() {
+        let _ = r.take_weight_violations();
+        let snapshot = sut.snapshot();
+        let accepted: Vec<&(u64, i64, bool, Option<CommandStatus>)> = puts.iter().filter(|p| p.3 == Some(CommandStatus::Accepted)).collect();
+        counts.add("distinct_keys_put_at_the_same_moment", puts.len() as u64);
+        if accepted.len() != puts.len() {
+            let other = puts.iter().find(|p| p.3 != Some(CommandStatus::Accepted)).unwrap();
+            fail(&mut findings, &["C06", "C07", "C12"], "C06/put-of-a-new-key-into-an-almost-empty-cache-not-accepted".into(), format!("put of new key {} resolved to {:?}", other.0, other.3.map(|s| status_name(&s))), case.clone());
+        }
+        let mut by_id: HashMap<u64, u64> = HashMap::new();
+        for entry in &snapshot.stored {
+            if let Some(first) = by_id.insert(entry.1, entry.0) {
+                fail(&mut findings, &["C05", "C07", "C10"], "C05/two-held-keys-share-one-id".into(), format!("keys {} and {} are both stored under id {}: weight, expiry registration and eviction of the two are tied together", first, entry.0, entry.1), case.clone());
+                break;
+            }
+        }
+        let stored: HashMap<u64, u64> = snapshot.stored.iter().map(|e| (e.0, e.1)).collect();
+        let charged: HashMap<u64, i64> = snapshot.charged.iter().map(|c| (c.0, c.3)).collect();
+        for p in &accepted {
+            match stored.get(&p.0) {
+                None => { fail(&mut findings, &["C03", "C05"], "C03/accepted-key-not-stored/fanout".into(), format!("key {} was accepted (no pressure, clock not moved) but is not stored", p.0), case.clone()); break; }
+                Some(id) => if charged.get(id) != Some(&p.1) {
+                    fail(&mut findings, &["C05"], "C05/held-key-not-charged/fanout".into(), format!("key {} (id {}) was put with weight {} but is charged {:?}", p.0, id, p.1, charged.get(id)), case.clone()); break;
+                }
+            }
+        }
+        let sum: i64 = accepted.iter().map(|p| p.1).sum();
+        if findings.is_empty() && snapshot.weight_used != sum {
+            fail(&mut findings, &["C05"], "C05/total-differs-from-sum-of-charged/fanout".into(), format!("total {} but the {} accepted keys weigh {}", snapshot.weight_used, accepted.len(), sum), case.clone());
+        }
+        let (added, held) = (sut.stat(StatsType::KeysAdded), snapshot.stored.len() as u64);
+        if findings.is_empty() && added != held { fail(&mut findings, &["C16"], "C16/keys-added-differs-from-held/fanout".into(), format!("KeysAdded {} but {} keys are held (nothing deleted yet)", added, held), case.clone()); }
+        counts.inc("fanout_accounting_checks");
+        sig = fnv_step(sig, (threads as u64) << 8 | shards as u64);
+        // let every time-to-live pass and the sweeps go round
+        if findings.is_empty() {
+            for _ in 0..(shards as u64 + 5) {
+                sut.advance(NS);
+                if sut.settle().is_err() { stuck = true; break; }
+            }
+        }
+        if findings.is_empty() && !stuck {
+            let after = sut.snapshot();
+            let left: Vec<u64> = accepted.iter().filter(|p| p.2).map(|p| p.0).filter(|k| after.stored.iter().any(|e| e.0 == *k)).collect();
+            if !left.is_empty() {
+                fail(&mut findings, &["C10", "C05"], "C10/expired-keys-still-held-after-full-sweep-cycles/fanout".into(), format!("{} keys past their time-to-live are still stored after the sweeps went round all {} shards (e.g. key {})", left.len(), shards, left[0]), case.clone());
+            }
+            let sum_left: i64 = accepted.iter().filter(|p| !p.2).map(|p| p.1).sum();
+            if findings.is_empty() && after.weight_used != sum_left {
+                fail(&mut findings, &["C10", "C05"], "C10/weight-of-swept-keys-not-released/fanout".into(), format!("total {} but the keys without a time-to-live weigh {}", after.weight_used, sum_left), case.clone());
+            }
+            counts.inc("fanout_sweep_checks");
+            // every key that reads as absent can be put again; every key still readable is refused
+            let mut client = Client::new(99);
+            let mut probes: Vec<(u64, bool, usize)> = Vec::new();
+            for p in accepted.iter().take(400) {
+                let readable = sut.cache.get(&p.0).is_some();
+                let value = client.token(p.0);
+                let at = client.write(&sut.cache, WriteOp::PutW { key: p.0, value, weight: 30 });
+                probes.push((p.0, readable, at));
+            }
+            client.settle_all(&marks);
+            for (key, readable, at) in probes {
+                let status = match &client.log[at].outcome { Outcome::Write { status: Some(Waited::Ready(s)), .. } => Some(*s), _ => None };
+                counts.inc("puts_after_the_fanout_judged");
+                match (readable, status) {
+                    (false, Some(CommandStatus::Rejected(RejectionReason::KeyAlreadyExists))) => {
+                        fail(&mut findings, &["C07", "C10"], "C07/key-already-exists-for-unreadable-key/swept/fanout".into(), format!("key {} reads as absent (its time-to-live has passed and the sweeps went round) yet a put is refused with KeyAlreadyExists", key), case.clone());
+                        break;
+                    }
+                    (true, Some(s)) if s != CommandStatus::Rejected(RejectionReason::KeyAlreadyExists) => {
+                        fail(&mut findings, &["C07"], "C07/put-on-readable-key-not-rejected/fanout".into(), format!("put of readable key {} resolved to {}", key, status_name(&s)), case.clone());
+                        break;
+                    }
+                    _ => {}
+                }
+            }
+        }
+        // delete everything: nothing may stay charged
+        if findings.is_empty() && !stuck {
+            let mut client = Client::new(98);
+            let all: Vec<u64> = sut.snapshot().stored.iter().map(|e| e.0).collect();
+            for key in all { client.write(&sut.cache, WriteOp::Delete { key }); }
+            client.settle_all(&marks);
+            let _ = sut.quiesce();
+            let end = sut.snapshot();
+            if end.weight_used != 0 || !end.charged.is_empty() || !end.stored.is_empty() {
+                fail(&mut findings, &["C05", "C04"], "C05/weight-left-after-deleting-every-key/fanout".into(), format!("after deleting every held key: total {}, {} ids charged, {} keys stored", end.weight_used, end.charged.len(), end.stored.len()), case.clone());
+            }
+            counts.inc("fanout_final_zero_checks");
+        }
+    } else if !stuck { stuck = true; }
+    if stuck && findings.is_empty() { findings.push(Finding { props: vec!["C05"], signature: "inconclusive/fanout".into(), detail: "the fan-out did not reach quiescence".into(), witness: J::Null, inconclusive: true }); }
+    let _ = r.take_weight_violations();
+    if let Err(waited) = sut.finish_or_leak() { if findings.is_empty() { findings.push(Finding { props: vec!["C05"], signature: "inconclusive/finish".into(), detail: waited_name(&waited), witness: J::Null, inconclusive: true }); } }
+    counts.inc("cases");
+    let nontrivial = counts.get("fanout_accounting_checks") > 0;
+    CaseOut { findings, counts, signature: fnv_step(sig, per_thread), nontrivial, sample: case }
 }
 
 // ------------------------------------------------------------------------------------------------ bare workload (sanitizers, Miri)
